@@ -499,6 +499,36 @@ func runC16Once(c bson.D, x *Ctx) error {
 		}
 	}
 	if !e.isClosed() {
+		// aborting a transaction that has already been committed (every write
+		// helper does so in a defer) is a no-op, also when another writer
+		// holds the slot by then
+		sctx, scancel := context.WithTimeout(context.Background(), 3*time.Second)
+		t1, serr := engine.Begin(sctx, true)
+		scancel()
+		if serr != nil {
+			return fmt.Errorf("wedged: Begin(lock) after the probe write failed: %v\n%s", serr, goroutineDump())
+		}
+		if cerr := t1.Create(lungo.Handle{"probe", fmt.Sprintf("q%d", time.Now().UnixNano())}); cerr != nil {
+			return fmt.Errorf("harness: %v", cerr)
+		}
+		if cerr := engine.Commit(t1); cerr != nil {
+			return fmt.Errorf("Commit of a collection creation failed: %v", cerr)
+		}
+		sctx, scancel = context.WithTimeout(context.Background(), 3*time.Second)
+		t2, serr := engine.Begin(sctx, true)
+		scancel()
+		if serr != nil {
+			return fmt.Errorf("wedged: Begin(lock) after a commit failed: %v\n%s", serr, goroutineDump())
+		}
+		engine.Abort(t1) // stale
+		sctx, scancel = context.WithTimeout(context.Background(), 40*time.Millisecond)
+		t3, serr := engine.Begin(sctx, true)
+		scancel()
+		if serr == nil {
+			engine.Abort(t3)
+			return fmt.Errorf("aborting an already committed transaction released the writer slot held by another transaction: a second write transaction started")
+		}
+		engine.Abort(t2)
 		// shutdown completes, and it releases a writer that is waiting for
 		// the slot with a context of its own (cancelable, far deadline)
 		hctx, hcancel := context.WithTimeout(context.Background(), 3*time.Second)
